@@ -22,10 +22,11 @@ const (
 	KOnceEnter
 	KOnceDone
 	KStep
+	KStamp
 	KEnd
 )
 
-var kindNames = [...]string{"start", "yield", "get", "put", "lock", "unlock", "rlock", "runlock", "once-enter", "once-done", "step", "end"}
+var kindNames = [...]string{"start", "yield", "get", "put", "lock", "unlock", "rlock", "runlock", "once-enter", "once-done", "step", "stamp", "end"}
 
 func (k Kind) String() string { return kindNames[k] }
 
@@ -118,6 +119,7 @@ type req struct {
 }
 
 type resp struct {
+	ev     int
 	abort  string
 	obj    any
 	fresh  bool
@@ -674,6 +676,8 @@ func (s *Sim) complete(t *task) resp {
 			s.stats.OnceRun++
 			return resp{run: true}
 		}
+	case KStamp:
+		return resp{ev: s.ev}
 	}
 	return resp{}
 }
@@ -746,6 +750,19 @@ func StepMark() {
 	}
 	s.call(t, req{task: t, kind: KStep})
 }
+
+// Stamp returns the scheduler's global event sequence number at the moment the calling task is
+// resumed; it is a decision point. Used to stamp invoke/return events of recorded histories.
+// Outside a simulation it returns a process-wide counter.
+func Stamp() int64 {
+	s, t := current()
+	if s == nil {
+		return soloStamp.Add(1)
+	}
+	return int64(s.call(t, req{task: t, kind: KStamp}).ev)
+}
+
+var soloStamp atomic.Int64
 
 // PoolGet asks the scheduler for an object of the pool identified by key. fresh means the caller
 // must allocate a new one.
